@@ -300,4 +300,293 @@ theorem isFin_unique (x : Nat) (q q' : ℚ) (h : IsFin x q) (h' : IsFin x q') : 
   obtain ⟨s', m', e', hd', hv'⟩ := h'
   rw [hd] at hd'; cases hd'; rw [← hv, ← hv']
 
+/-! ### comparisons; the generated typed accessors -/
+
+/-- bits of a non-negative finite datum from its decoded form -/
+theorem bits_of_decode (x m : Nat) (e : Int) (hx : x < 2 ^ 63) (h : decode x = .fin false m e) :
+    (m < 2 ^ 52 ∧ e = -1074 ∧ x = m) ∨
+    (2 ^ 52 ≤ m ∧ m < 2 ^ 53 ∧ -1074 ≤ e ∧ e ≤ 971 ∧ x = (e + 1074).toNat * 2 ^ 52 + m) := by
+  simp only [decode, Fmt.decode, b64] at h
+  have hdm := Nat.div_add_mod x (2 ^ 52)
+  have hbe : x / 2 ^ 52 < 2 ^ 11 := by omega
+  have hbe' : x / 2 ^ 52 % 2 ^ 11 = x / 2 ^ 52 := Nat.mod_eq_of_lt hbe
+  have hfr : x % 2 ^ 52 < 2 ^ 52 := Nat.mod_lt _ (by norm_num)
+  simp only [hbe'] at h
+  by_cases h1 : x / 2 ^ 52 = 2 ^ 11 - 1
+  · simp only [h1, if_true] at h
+    by_cases h0 : x % 2 ^ 52 = 0
+    · simp only [h0, if_true] at h; cases h
+    · simp only [h0, if_false] at h; cases h
+  · simp only [h1, if_false] at h
+    by_cases h3 : x / 2 ^ 52 = 0
+    · simp only [h3, if_true] at h
+      injection h with hs hm he
+      left
+      refine ⟨by omega, by omega, by omega⟩
+    · simp only [h3, if_false] at h
+      injection h with hs hm he
+      right
+      have : x / 2 ^ 52 ≤ 2046 := by omega
+      refine ⟨by omega, by omega, by omega, by omega, ?_⟩
+      have : (e + 1074).toNat = x / 2 ^ 52 - 1 := by omega
+      rw [this]
+      have : (x / 2 ^ 52 - 1) * 2 ^ 52 = 2 ^ 52 * (x / 2 ^ 52) - 2 ^ 52 := by
+        rw [Nat.sub_mul, Nat.mul_comm]; simp
+      omega
+
+/-- the order of non-negative finite bit patterns is the order of their values -/
+theorem bits_le_of_val_le (x y mx my : Nat) (ex ey : Int) (hx : x < 2 ^ 63) (hy : y < 2 ^ 63)
+    (dx : decode x = .fin false mx ex) (dy : decode y = .fin false my ey)
+    (h : (mx : ℚ) * (2 : ℚ) ^ ex ≤ (my : ℚ) * (2 : ℚ) ^ ey) : x ≤ y := by
+  have h2 : (2 : ℚ) ≠ 0 := by norm_num
+  rcases bits_of_decode x mx ex hx dx with ⟨hm, he, hxe⟩ | ⟨hm1, hm2, he1, he2, hxe⟩
+  · rcases bits_of_decode y my ey hy dy with ⟨hm', he', hye⟩ | ⟨hm1', hm2', he1', he2', hye⟩
+    · skip
+      rw [he, he'] at h
+      have hp : (0 : ℚ) < (2 : ℚ) ^ (-1074 : Int) := by positivity
+      have := le_of_mul_le_mul_right h hp
+      have : mx ≤ my := by exact_mod_cast this
+      omega
+    · skip
+      have : mx < 2 ^ 52 := hm
+      have : 0 ≤ (ey + 1074).toNat * 2 ^ 52 := Nat.zero_le _
+      omega
+  · rcases bits_of_decode y my ey hy dy with ⟨hm', he', hye⟩ | ⟨hm1', hm2', he1', he2', hye⟩
+    · -- x normal, y subnormal: value x ≥ 2^52·2^ex ≥ 2^52·2^-1074 > y
+      exfalso
+      rw [he'] at h
+      have hp : (2 : ℚ) ^ (-1074 : Int) ≤ (2 : ℚ) ^ ex := zpow_le_zpow_right₀ (by norm_num) he1
+      have hmq : (2 : ℚ) ^ 52 ≤ (mx : ℚ) := by exact_mod_cast hm1
+      have hmy : (my : ℚ) < 2 ^ 52 := by exact_mod_cast hm'
+      have hpos : (0 : ℚ) < (2 : ℚ) ^ (-1074 : Int) := by positivity
+      have : (2 : ℚ) ^ 52 * (2 : ℚ) ^ (-1074 : Int) ≤ (mx : ℚ) * (2 : ℚ) ^ ex :=
+        mul_le_mul hmq hp hpos.le (by positivity)
+      have : (my : ℚ) * (2 : ℚ) ^ (-1074 : Int) < (2 : ℚ) ^ 52 * (2 : ℚ) ^ (-1074 : Int) :=
+        mul_lt_mul_of_pos_right hmy hpos
+      linarith
+    · -- both normal: compare exponents
+      by_cases hee : ex ≤ ey
+      · rcases lt_or_eq_of_le hee with hlt | heq
+        · skip
+          have : (ex + 1074).toNat + 1 ≤ (ey + 1074).toNat := by omega
+          have : ((ex + 1074).toNat + 1) * 2 ^ 52 ≤ (ey + 1074).toNat * 2 ^ 52 := Nat.mul_le_mul_right _ this
+          rw [Nat.add_mul] at this
+          omega
+        · skip
+          subst heq
+          have hp : (0 : ℚ) < (2 : ℚ) ^ ex := by positivity
+          have := le_of_mul_le_mul_right h hp
+          have : mx ≤ my := by exact_mod_cast this
+          omega
+      · exfalso
+        have hgt : ey + 1 ≤ ex := by omega
+        have hp : (2 : ℚ) ^ (ey + 1) ≤ (2 : ℚ) ^ ex := zpow_le_zpow_right₀ (by norm_num) hgt
+        have hmq : (2 : ℚ) ^ 52 ≤ (mx : ℚ) := by exact_mod_cast hm1
+        have hmy : (my : ℚ) < 2 ^ 53 := by exact_mod_cast hm2'
+        have hpos : (0 : ℚ) < (2 : ℚ) ^ ey := by positivity
+        have e1 : (2 : ℚ) ^ (ey + 1) = (2 : ℚ) ^ ey * 2 := by rw [zpow_add₀ h2]; simp
+        have : (2 : ℚ) ^ 52 * ((2 : ℚ) ^ ey * 2) ≤ (mx : ℚ) * (2 : ℚ) ^ ex := by
+          rw [← e1]; exact mul_le_mul hmq hp (by positivity) (by positivity)
+        have : (my : ℚ) * (2 : ℚ) ^ ey < 2 ^ 53 * (2 : ℚ) ^ ey := mul_lt_mul_of_pos_right hmy hpos
+        have e53 : (2 : ℚ) ^ 53 = 2 ^ 52 * 2 := by norm_num
+        rw [e53] at this
+        nlinarith
+
+theorem decode_sign (x : Nat) (s : Bool) (m : Nat) (e : Int) (h : decode x = .fin s m e) :
+    s = (x / 2 ^ 63 % 2 == 1) := by
+  simp only [decode, Fmt.decode, b64] at h
+  by_cases h1 : x / 2 ^ 52 % 2 ^ 11 = 2 ^ 11 - 1
+  · simp only [h1, if_true] at h
+    by_cases h0 : x % 2 ^ 52 = 0
+    · simp only [h0, if_true] at h; cases h
+    · simp only [h0, if_false] at h; cases h
+  · simp only [h1, if_false] at h
+    by_cases h3 : x / 2 ^ 52 % 2 ^ 11 = 0
+    · simp only [h3, if_true] at h; injection h with hs _ _; exact hs.symm
+    · simp only [h3, if_false] at h; injection h with hs _ _; exact hs.symm
+
+/-- `u > y` is false when the value of `u` does not exceed that of the positive datum `y` -/
+theorem fgt_false (u y : Nat) (hu64 : u < 2 ^ 64) (hy64 : y < 2 ^ 64) (qu qy : ℚ) (hu : IsFin u qu) (hy : IsFin y qy)
+    (hpos : 0 < qy) (hle : qu ≤ qy) : fgt u y = false := by
+  obtain ⟨su, mu, eu, du, rfl⟩ := hu
+  obtain ⟨sy, my, ey, dy, rfl⟩ := hy
+  have hsy : sy = false := by
+    cases sy with
+    | false => rfl
+    | true =>
+      exfalso
+      rw [toQ_fin] at hpos
+      simp only [sgn, if_true] at hpos
+      have : (0 : ℚ) ≤ (my : ℚ) * (2 : ℚ) ^ ey := by positivity
+      linarith
+  subst hsy
+  have hy63 : y < 2 ^ 63 := by
+    have := decode_sign y false my ey dy
+    have : ¬ (y / 2 ^ 63 % 2 = 1) := by simpa using this.symm
+    omega
+  have hmy : 0 < my := by
+    rcases Nat.eq_zero_or_pos my with h | h
+    · rw [toQ_fin, h] at hpos; simp at hpos
+    · exact h
+  unfold fgt flt
+  have hkey : ¬ (key y < key u) := by
+    have hky : key y = (y : Int) := by
+      unfold key
+      have : ¬ (y / 2 ^ 63 % 2 = 1) := by omega
+      simp only [this, if_false]
+      have : y % 2 ^ 63 = y := Nat.mod_eq_of_lt hy63
+      rw [this]
+    cases su with
+    | true =>
+      have := decode_sign u true mu eu du
+      have h1 : u / 2 ^ 63 % 2 = 1 := by simpa using this.symm
+      unfold key at *
+      simp only [h1, if_true]
+      omega
+    | false =>
+      have := decode_sign u false mu eu du
+      have h1 : ¬ (u / 2 ^ 63 % 2 = 1) := by simpa using this.symm
+      have hu63 : u < 2 ^ 63 := by omega
+      have hku : key u = (u : Int) := by
+        unfold key
+        simp only [h1, if_false]
+        have : u % 2 ^ 63 = u := Nat.mod_eq_of_lt hu63
+        rw [this]
+      rw [hky, hku]
+      rw [toQ_fin, toQ_fin] at hle
+      simp only [sgn, Bool.false_eq_true, if_false, one_mul] at hle
+      have := bits_le_of_val_le u y mu my eu ey hu63 hy63 du dy hle
+      omega
+  simp [hkey]
+
+theorem ofRat_lt64 (neg : Bool) (a b : Nat) (e0 : Int) (hb : 0 < b)
+    (hv : (a : ℚ) / b * (2 : ℚ) ^ e0 < (2 : ℚ) ^ (1023 : Int)) : b64.ofRat neg a b e0 < 2 ^ 64 := by
+  unfold Fmt.ofRat
+  have hs : b64.signBit neg ≤ 2 ^ 63 := by cases neg <;> simp [Fmt.signBit, b64]
+  by_cases ha : a = 0
+  · simp only [ha, true_or, if_true]; omega
+  · have hb' : b ≠ 0 := hb.ne'
+    simp only [ha, hb', or_self, if_false]
+    obtain ⟨hlt, _⟩ := roundPos_spec a b e0 (Nat.pos_of_ne_zero ha) hb hv
+    omega
+
+theorem ofInt_lt64 (i : Int) (hi : i.natAbs < 2 ^ 53) : ofInt i < 2 ^ 64 := by
+  unfold ofInt
+  apply ofRat_lt64 _ _ 1 0 (by norm_num)
+  have : ((i.natAbs : Nat) : ℚ) < 2 ^ 53 := by exact_mod_cast hi
+  have h : (2 : ℚ) ^ 53 < (2 : ℚ) ^ (1023 : Int) := by
+    rw [← zpow_natCast]; exact zpow_lt_zpow_right₀ (by norm_num) (by norm_num)
+  have e : ((i.natAbs : Nat) : ℚ) / ((1 : Nat) : ℚ) * (2 : ℚ) ^ (0 : Int) = (i.natAbs : ℚ) := by simp
+  rw [e]; exact lt_trans this h
+
+theorem mul_lt64 (x y : Nat) (qx qy : ℚ) (hx : IsFin x qx) (hy : IsFin y qy)
+    (hz : |qx * qy| < (2 : ℚ) ^ (1023 : Int)) : mul x y < 2 ^ 64 := by
+  obtain ⟨s, m, e, hdx, rfl⟩ := hx
+  obtain ⟨s', m', e', hdy, rfl⟩ := hy
+  have h2 : (2 : ℚ) ≠ 0 := by norm_num
+  simp only [mul, hdx, hdy]
+  apply ofRat_lt64 _ _ 1 _ (by norm_num)
+  rw [abs_mul, abs_toQ, abs_toQ] at hz
+  rw [zpow_add₀ h2]; push_cast
+  calc ((m : ℚ) * m') / 1 * ((2 : ℚ) ^ e * (2 : ℚ) ^ e') = (m : ℚ) * (2 : ℚ) ^ e * ((m' : ℚ) * (2 : ℚ) ^ e') := by ring
+    _ < _ := hz
+
+/-- the generated `XxxScaled` → `SetXxxScaled` round trip returns the raw value whenever the float64 arithmetic
+`((r/s − o) + o)·s` happens to be exact (no rounding error survives): then nothing is left for the truncating
+conversion to cut off. `inv` is the invalid sentinel, the largest value of the type. -/
+theorem typed_exact (ty : IntTy) (hty : ty.bits ≤ 32) (r inv s o : Nat) (hr : r < 2 ^ ty.bits)
+    (hrinv : r ≠ inv) (hle : ty.toInt r ≤ ty.toInt inv) (hinvpos : 0 < ty.toInt inv)
+    (hu64 : mul (add (sub (div (ofInt (ty.toInt r)) s) o) o) s < 2 ^ 64)
+    (hexact : IsFin (mul (add (sub (div (ofInt (ty.toInt r)) s) o) o) s) ((ty.toInt r : Int) : ℚ)) :
+    setScaled ty inv (getScaled ty inv r s o) s o = r := by
+  have hinvb : (ty.toInt inv).natAbs < 2 ^ 53 := by
+    have := toInt_natAbs_le ty inv
+    have : 2 ^ ty.bits ≤ 2 ^ 32 := Nat.pow_le_pow_right (by norm_num) hty
+    omega
+  have hI := ofInt_fin (ty.toInt inv) hinvb
+  obtain ⟨_, hnan, hinf⟩ := not_special_of_fin _ _ hexact
+  have hgt := fgt_false _ _ hu64 (ofInt_lt64 _ hinvb) _ _ hexact hI (by exact_mod_cast hinvpos) (by exact_mod_cast hle)
+  simp only [getScaled, hrinv, if_false, setScaled, hnan, hinf, hgt, Bool.or_self, Bool.false_eq_true, if_false]
+  rw [cvt_int ty hty _ _ hexact (toInt_inRange ty r), wrap_toInt ty r hr]
+
+/-- decidable: the scale is a power of two in [1/2, 2^16], the offset is a zero -/
+def pow2OK (s o : Nat) : Bool :=
+  decide (o < 2 ^ 64) &&
+  match decode s, decode o with
+  | .fin false m e, .fin _ mo _ => decide (m = 2 ^ 52) && decide (-53 ≤ e) && decide (e ≤ -36) && decide (mo = 0)
+  | _, _ => false
+
+/-- with a power-of-two scale and a zero offset every step of `((r/s − o) + o)·s` is exact -/
+theorem pow2_exact (r : Int) (hr : r.natAbs ≤ 2 ^ 32) (s o : Nat) (h : pow2OK s o = true) :
+    IsFin (mul (add (sub (div (ofInt r) s) o) o) s) (r : ℚ) ∧ mul (add (sub (div (ofInt r) s) o) o) s < 2 ^ 64 := by
+  have h2 : (2 : ℚ) ≠ 0 := by norm_num
+  unfold pow2OK at h
+  simp only [Bool.and_eq_true, decide_eq_true_eq] at h
+  obtain ⟨ho64, hm⟩ := h
+  cases hds : decode s with
+  | nan => simp [hds] at hm
+  | inf _ => simp [hds] at hm
+  | fin ss m e =>
+    cases hdo : decode o with
+    | nan => cases ss <;> simp [hds, hdo] at hm
+    | inf _ => cases ss <;> simp [hds, hdo] at hm
+    | fin so mo eo =>
+      cases ss with
+      | true => simp [hds, hdo] at hm
+      | false =>
+        simp only [hds, hdo, Bool.and_eq_true, decide_eq_true_eq] at hm
+        obtain ⟨⟨⟨hm52, he1⟩, he2⟩, hmo⟩ := hm
+        subst hm52 hmo
+        -- S = 2^k with k = 52 + e ∈ [-1, 16]
+        obtain ⟨k, hk⟩ : ∃ k : Int, k = 52 + e := ⟨_, rfl⟩
+        have hS : IsFin s ((2 : ℚ) ^ k) := by
+          refine ⟨false, 2 ^ 52, e, hds, ?_⟩
+          rw [toQ_fin, hk, zpow_add₀ h2]
+          simp only [sgn, Bool.false_eq_true, if_false, one_mul]
+          norm_num
+        have hO : IsFin o 0 := ⟨so, 0, eo, hdo, by rw [toQ_fin]; simp⟩
+        have hSpos : (0 : ℚ) < (2 : ℚ) ^ k := by positivity
+        have hR := ofInt_fin r (by omega)
+        have hrn : r.natAbs < 2 ^ 53 := by omega
+        have habs : |(r : ℚ)| = ((r.natAbs : Nat) : ℚ) := by rw [Nat.cast_natAbs, Int.cast_abs]
+        have hrq : |(r : ℚ)| ≤ 2 ^ 32 := by rw [habs]; exact_mod_cast hr
+        have hSlo : (2 : ℚ) ^ (-1 : Int) ≤ (2 : ℚ) ^ k := zpow_le_zpow_right₀ (by norm_num) (by omega)
+        have hShi : (2 : ℚ) ^ k ≤ (2 : ℚ) ^ (16 : Int) := zpow_le_zpow_right₀ (by norm_num) (by omega)
+        have hSlo' : (1 : ℚ) / 2 ≤ (2 : ℚ) ^ k := by
+          have e : (2 : ℚ) ^ (-1 : Int) = 1 / 2 := by norm_num
+          rw [← e]; exact hSlo
+        have hShi' : (2 : ℚ) ^ k ≤ 2 ^ 16 := by
+          have e : (2 : ℚ) ^ (16 : Int) = 2 ^ 16 := by norm_num
+          rw [← e]; exact hShi
+        have b0 : |(r : ℚ) / (2 : ℚ) ^ k| ≤ 2 ^ 33 := by
+          rw [abs_div, abs_of_pos hSpos, div_le_iff₀ hSpos]
+          calc |(r : ℚ)| ≤ 2 ^ 32 := hrq
+            _ = 2 ^ 33 * (1 / 2) := by norm_num
+            _ ≤ 2 ^ 33 * (2 : ℚ) ^ k := by gcongr
+        have hrep : |(r : ℚ) / (2 : ℚ) ^ k| = ((r.natAbs : Nat) : ℚ) * (2 : ℚ) ^ (-k) := by
+          rw [abs_div, abs_of_pos hSpos, habs, zpow_neg]; field_simp
+        obtain ⟨q1, f1, n1⟩ := div_fin _ s _ _ hR hS hSpos.ne' (lt_big _ (by linarith [b0]))
+        have e1 : q1 = (r : ℚ) / (2 : ℚ) ^ k := n1.2 r.natAbs (-k) hrn (by omega) hrep
+        subst e1
+        obtain ⟨q2, f2, n2⟩ := sub_fin _ o ho64 _ 0 f1 hO (lt_big _ (by rw [sub_zero]; linarith [b0]))
+        have e2 : q2 = (r : ℚ) / (2 : ℚ) ^ k := by
+          have := n2.2 r.natAbs (-k) hrn (by omega) (by rw [sub_zero]; exact hrep)
+          rw [this, sub_zero]
+        subst e2
+        obtain ⟨q3, f3, n3⟩ := add_fin _ o _ 0 f2 hO (lt_big _ (by rw [add_zero]; linarith [b0]))
+        have e3 : q3 = (r : ℚ) / (2 : ℚ) ^ k := by
+          have := n3.2 r.natAbs (-k) hrn (by omega) (by rw [add_zero]; exact hrep)
+          rw [this, add_zero]
+        subst e3
+        have hprod : (r : ℚ) / (2 : ℚ) ^ k * (2 : ℚ) ^ k = r := by field_simp
+        have hz : |(r : ℚ) / (2 : ℚ) ^ k * (2 : ℚ) ^ k| < (2 : ℚ) ^ (1023 : Int) :=
+          lt_big _ (by rw [hprod]; have : (2 : ℚ) ^ 32 ≤ 2 ^ 80 := by norm_num
+                       linarith)
+        obtain ⟨q4, f4, n4⟩ := mul_fin _ s _ _ f3 hS hz
+        have e4 : q4 = (r : ℚ) := by
+          have := n4.2 r.natAbs 0 hrn (by norm_num) (by rw [hprod, habs]; simp)
+          rw [this, hprod]
+        subst e4
+        exact ⟨f4, mul_lt64 _ s _ _ f3 hS hz⟩
+
 end Fit.C12L
